@@ -562,6 +562,10 @@ class GenericPlainRegistry(Generic[QuantityT, UnitT], metaclass=RegistryMeta):
         for alias in definition.aliases:
             self._helper_single_adder(alias, unit, self._units, self._units_casei)
 
+        if self._initialized:
+            # an alias may have been read as prefix + unit before (dab: decabarn)
+            self._forget_memoized_readings(set(definition.aliases))
+
     def _add_dimension(self, definition: DimensionDefinition) -> None:
         self._helper_adder(definition, self._dimensions, None)
 
